@@ -145,6 +145,16 @@ def impl(case):
         if _pool_out(q, enc) != _pool_out(ref, enc) or [q[i] for i in range(len(q))] != list(ref) or q.total != ref.total or not (q == ref):
             flags += " slice(%s,%s,%s)-not-canonical" % (sl.start, sl.stop, sl.step)
             break
+    # pools that compare equal denote the same distribution (a pool == its h() by C05, and equality is transitive):
+    # neighbours of p that differ in how often a die occurs must not be == p unless their sums agree
+    if len(p):
+        for q in (P(*list(p)[1:]), P(*(list(p) + [p[0]])), P(*(list(p)[1:] + [p[-1]])), P(*(list(p)[:-1] + [p[0]]))):
+            if (q == p) and not (q.h() == p.h()):
+                flags += " equal-pools-with-different-sums"
+                break
+            if (q == p) == (q != p):
+                flags += " pool-ne-inconsistent"
+                break
     p2 = P(*_build_args(_shuffled(case["args"], case.get("salt", 0))))
     if k == "pmatmul":
         p2 = case["n"] @ p2
